@@ -202,7 +202,34 @@ def raises_with_inner_guard(model: Model, f: Func):
             rec(ifnode.orelse, tk)
 
     rec(f.node.body, set())
-    return out
+    # a guard that reads locals derived from the operands reads the operands: close the token sets over local definitions
+    defs = {}
+    for n in ast.walk(f.node):
+        if isinstance(n, ast.Assign):
+            tk = tokens(n.value)
+            for t in n.targets:
+                for x in ast.walk(t):
+                    if isinstance(x, ast.Name):
+                        defs.setdefault(x.id, set()).update(tk)
+        elif isinstance(n, (ast.For, ast.comprehension)):
+            tk = tokens(n.iter)
+            for x in ast.walk(n.target):
+                if isinstance(x, ast.Name):
+                    defs.setdefault(x.id, set()).update(tk)
+    closed = []
+    for node, exc, tk in out:
+        cur = set(tk)
+        for _ in range(3):
+            add = set()
+            for t in cur:
+                base = t.split(".")[0]
+                if base in defs:
+                    add |= defs[base]
+            if add <= cur:
+                break
+            cur |= add
+        closed.append((node, exc, cur))
+    return closed
 
 
 def rule_raise_table(model: Model) -> list[Ob]:
